@@ -66,6 +66,8 @@ struct verif_symexpr_map
     void emplace(const UTAP::symbol_t& s, const UTAP::expression_t& e) { __CPROVER_assert(s.id >= 0 && s.id < VERIF_NSYMS, "stub: symbol id in range"); if (!has[s.id]) { has[s.id] = true; val[s.id] = e; } }
 };
 }  // namespace std
+/* a moved-from std::map is in a valid but unspecified state (rule L23b): its content is arbitrary afterwards */
+inline void verif_moved_from(std::verif_symexpr_map& m) { for (int i = 0; i < VERIF_NSYMS; i++) { bool h; m.has[i] = h; } }
 
 namespace UTAP {
 typedef int verif_str; /* identity of a string value */
@@ -327,6 +329,7 @@ int w08_add_instance(int name, int nfree, int nargs, int src_arguments, int pre_
     for (int i = 0; i < 2; i++) { if (i < nfree) params.add_symbol(40 + i, type_t(0), position_t()); }
     std::vector<expression_t> a;
     for (int i = 0; i < 2; i++) { if (i < nargs) { args_[i] = expression_t::create_constant(50 + i); a.push_back(args_[i]); } }
+    src_ptr_ = src;
     instance_t& inst = doc.add_instance(name, *src, params, a, position_t());
     return doc.instances.index_of(&inst);
 }
@@ -354,6 +357,10 @@ int w08_inst(int what, int i)
     int ty = verif_symtab[in.uid.id].type;
     return (ty - 10000) / 1024 == TCODE_INSTANCE && (ty - 10000) % 16 == (int)in.unbound;
 }
+/* the instantiated instance after the call: number of bindings it still carries, and whether binding k is still its own */
+static instance_t* src_ptr_;
+int w08_src_mapped_count(void) { int c = 0; for (int k = 0; k < VERIF_NSYMS; k++) c += src_ptr_->mapping.has[k]; return c; }
+int w08_src_keeps(int k) { symbol_t p = src_param_[k]; return p.id >= 0 && src_ptr_->mapping.has[p.id] && src_ptr_->mapping.val[p.id].data == pre_[k].data; }
 int w08_mapped_count(int i) { int c = 0; for (int k = 0; k < VERIF_NSYMS; k++) c += doc.instances.at(i).mapping.has[k]; return c; }
 }
 #ifdef C04_BUILDER
